@@ -441,3 +441,15 @@ theorem footN_ne_pending {key ext dh : String} {N : Nat} {p : Path} (k : String)
     simp [modelPath, resultsPath, metadataPath, keyDir, metaDir, pendingPath, datasetsDir, hashDir, dbRoot]
 
 end Pharmpy.C16
+
+namespace Pharmpy.C16
+
+theorem txnCleanup_false (k : String) (fs : FS) (nops j : Nat) : txnCleanup false k fs nops j = [] := by
+  simp [txnCleanup]
+
+theorem ops_dbStoreEntry (m : MDesc) (fs : FS) : (Call.dbStoreEntry m).ops fs = (dbStoreEntry m fs).1 := by
+  simp [Call.ops, Call.run]
+  cases hh : dbStoreEntry m fs with
+  | mk o r => cases r <;> simp [outOf]
+
+end Pharmpy.C16
